@@ -7,12 +7,16 @@
 //@ prop C01 C03 C06 C02 : dewey_test dewey_cmp lemma_first_diff_props lemma_first_diff_unique first_diff
 //@ prop C03 : law_refl law_antisym law_trichotomy law_duality law_trans law_swap_verdict
 //@ prop C01 C02 C06 C17 C18 : DeweyVersion::new tok dpl dec_value pow10
+//@ prop C02 C17 : Dewey::new DeweyMatch::new lemma_get_eq lemma_ops_from
+//@ prop C01 C02 C03 C17 : Dewey::matches
+//@ prop C03 C02 : law_two_bounds
 #![allow(unused_imports)]
 use vstd::prelude::*;
 use vstd::utf8::*;
 use vstd::string::*;
 use std::cmp::Ordering;
 use vstd::std_specs::cmp::OrdSpec;
+use vstd::std_specs::iter::IteratorSpec;
 verus! {
 
 pub assume_specification<T: core::cmp::Ord> [core::cmp::min] (a: T, b: T) -> (r: T)
@@ -20,36 +24,20 @@ pub assume_specification<T: core::cmp::Ord> [core::cmp::min] (a: T, b: T) -> (r:
 
 //@ include lib/std_str.rs
 
-//@ extract src/dewey.rs : enum DeweyOp
-#[derive(Clone, Debug, Eq, Hash, PartialEq)]
-pub enum DeweyOp {
-    LE,
-    LT,
-    GE,
-    GT,
-}
-//@ end
-
-//@ extract src/dewey.rs : struct DeweyVersion
-#[derive(Clone, Debug, Eq, Hash, PartialEq)]
-pub struct DeweyVersion {
-    version: Vec<i64>,
-    pkgrevision: i64,
-}
-//@ end
+//@ include lib/dewey_types.rs
 
 //@ include lib/dewey_order_spec.rs
 //@ include lib/dewey_tok_spec.rs
+//@ include lib/dewey_match_spec.rs
+//@ include lib/dewey_views.rs
 
-pub open spec fn ints(v: Seq<i64>) -> Seq<int> { v.map_values(|x: i64| x as int) }
 
 impl DeweyVersion {
-    pub closed spec fn toks(&self) -> Tok { Tok { v: ints(self.version@), rev: self.pkgrevision as int } }
 
 //@ extract src/dewey.rs : impl DeweyVersion fn new
 //@ rewrite D6.take_digits D6.parse_i64_string D6.starts_with_lit
     pub fn new(s: &str) -> (r: Self)
-        ensures runs_ok(s@) ==> r.toks() == vtok(s@),
+        ensures r.toks() == vtok(s@),
     {
         let ghost s_orig = s@;
         let s = s.to_ascii_lowercase();
@@ -61,16 +49,15 @@ impl DeweyVersion {
         proof {
             lemma_boff_zero(s@);
             assert(ints(version@) =~= seq![]); assert(s@.skip(0) =~= s@);
-            lemma_runs_ok_lower(s_orig);
         }
         loop
             invariant
                 0 <= k <= s@.len(),
                 idx == boff(s@, k),
                 s@ == lower_seq(s_orig),
-                runs_ok(s@) ==> tok(s@.skip(k), ints(version@), pkgrevision as int) == tok(s@, seq![], 0),
+                tok(s@.skip(k), ints(version@), pkgrevision as int) == tok(s@, seq![], 0),
             ensures
-                runs_ok(s@) ==> (Tok { v: ints(version@), rev: pkgrevision as int }) == tok(s@, seq![], 0),
+                (Tok { v: ints(version@), rev: pkgrevision as int }) == tok(s@, seq![], 0),
             decreases s@.len() - k
         {
             proof { axiom_str_len_fits(s); assert(s.spec_bytes() == encode_utf8(s@)); lemma_boundary(s@, k); lemma_boff_full(s@); lemma_boundary(s@, s@.len() as int); }
@@ -95,10 +82,10 @@ impl DeweyVersion {
                     lemma_tok_digits(s@, k, v0, r0);
                     assert(is_ascii_chars(numstr@));
                     is_ascii_chars_encode_utf8(numstr@);
-                    if runs_ok(s@) { assert(dpl(s@.skip(k)) <= 18); lemma_dec_value_bound(numstr@); }
+                    lemma_dec_value_nonneg(numstr@);
                 }
                 version.push(numstr.parse::<i64>().unwrap_or(i64::MAX));
-                proof { assert(runs_ok(s@) ==> ints(version@) =~= v0.push(dec_value(numstr@))); }
+                proof { assert(ints(version@) =~= v0.push(run_value(numstr@))); }
                 idx += numstr.len();
                 proof { k = k + numstr@.len(); }
                 continue;
@@ -125,7 +112,7 @@ impl DeweyVersion {
                 proof {
                     assert(is_ascii_chars(nbstr@));
                     is_ascii_chars_encode_utf8(nbstr@);
-                    if runs_ok(s@) && nbstr@.len() >= 1 { assert(dpl(s@.skip(k + 2)) <= 18); lemma_dec_value_bound(nbstr@); }
+                    lemma_dec_value_nonneg(nbstr@);
                 }
                 pkgrevision = nbstr.parse::<i64>().unwrap_or(0);
                 idx += nbstr.len();
@@ -187,26 +174,6 @@ impl DeweyVersion {
 //@ end
 }
 
-/// lower-casing changes neither digits nor digit runs
-pub proof fn lemma_dpl_lower(cs: Seq<char>)
-    ensures dpl(lower_seq(cs)) == dpl(cs)
-    decreases cs.len()
-{
-    if cs.len() > 0 {
-        assert(lower_seq(cs).skip(1) =~= lower_seq(cs.skip(1)));
-        lemma_dpl_lower(cs.skip(1));
-    }
-}
-pub proof fn lemma_runs_ok_lower(cs: Seq<char>)
-    ensures runs_ok(lower_seq(cs)) == runs_ok(cs)
-{
-    assert forall|i: int| 0 <= i <= cs.len() implies dpl(lower_seq(cs).skip(i)) == dpl(cs.skip(i)) by {
-        assert(lower_seq(cs).skip(i) =~= lower_seq(cs.skip(i)));
-        lemma_dpl_lower(cs.skip(i));
-    }
-    if runs_ok(cs) { assert forall|i: int| 0 <= i <= lower_seq(cs).len() implies #[trigger] dpl(lower_seq(cs).skip(i)) <= 18 by { assert(dpl(cs.skip(i)) <= 18); } }
-    if runs_ok(lower_seq(cs)) { assert forall|i: int| 0 <= i <= cs.len() implies #[trigger] dpl(cs.skip(i)) <= 18 by { assert(dpl(lower_seq(cs).skip(i)) <= 18); } }
-}
 pub proof fn lemma_lower_no_upper(cs: Seq<char>, k: int)
     requires 0 <= k < cs.len()
     ensures !is_upper(lower_seq(cs)[k])
@@ -228,9 +195,6 @@ fn dewey_test(lhs: i64, op: &DeweyOp, rhs: i64) -> (r: bool)
 }
 //@ end
 
-pub closed spec fn vcmp(l: &DeweyVersion, r: &DeweyVersion) -> int {
-    cmp3(l.toks().v, l.toks().rev, r.toks().v, r.toks().rev)
-}
 
 //@ extract src/dewey.rs : fn dewey_cmp
 pub fn dewey_cmp(lhs: &DeweyVersion, op: &DeweyOp, rhs: &DeweyVersion) -> (r: bool)
@@ -278,6 +242,257 @@ pub fn dewey_cmp(lhs: &DeweyVersion, op: &DeweyOp, rhs: &DeweyVersion) -> (r: bo
     dewey_test(lhs.pkgrevision, op, rhs.pkgrevision)
 }
 //@ end
+
+
+
+impl DeweyMatch {
+//@ extract src/dewey.rs : impl DeweyMatch fn new
+    fn new(op: &DeweyOp, pattern: &str) -> (r: Result<DeweyMatch, DeweyError>)
+        ensures r is Ok, r->Ok_0.bound() == (Bound { op: *op, t: vtok(pattern@) })
+    {
+        let version = DeweyVersion::new(pattern);
+        Ok(DeweyMatch {
+            op: op.clone(),
+            version,
+        })
+    }
+//@ end
+}
+
+
+/// a collected operator entry (byte offsets) represents op_at(cs, k)
+pub open spec fn op_entry(cs: Seq<char>, k: int, e: (usize, usize, DeweyOp)) -> bool {
+    e.0 == boff(cs, k) && e.1 == boff(cs, op_at(cs, k).end) && e.2 == op_at(cs, k).op && op_at(cs, k).end <= cs.len()
+}
+/// the one-byte slice after an (ASCII) operator char at k is "=" exactly when the next char is '='
+pub proof fn lemma_get_eq(pattern: &str, k: int, t: &str)
+    requires 0 <= k < pattern@.len(), (pattern@[k] as u32) < 128,
+        boff(pattern@, k) + 2 <= pattern.spec_bytes().len(),
+        t.spec_bytes() == pattern.spec_bytes().subrange(boff(pattern@, k) + 1, boff(pattern@, k) + 2),
+    ensures (t@ == seq!['=']) == (k + 1 < pattern@.len() && pattern@[k + 1] == '=')
+{
+    let cs = pattern@;
+    let bytes = pattern.spec_bytes();
+    assert(bytes == encode_utf8(cs));
+    assert(t.spec_bytes() == encode_utf8(t@));
+    lemma_byte_at(cs, k);
+    lemma_boff_full(cs);
+    lemma_boundary(cs, k + 1);
+    lemma_boff_not_end(cs, k + 1);
+    lemma_byte_at(cs, k + 1);
+    if cs[k + 1] == '=' {
+        lemma_boundary(cs, k + 2);
+        lemma_slice_view_range(pattern, t, k + 1, k + 2);
+        assert(cs.subrange(k + 1, k + 2) =~= seq!['=']);
+    }
+    if t@ == seq!['='] {
+        assert(is_ascii_chars(t@));
+        is_ascii_chars_encode_utf8(t@);
+        assert(t.spec_bytes()[0] == 0x3D);
+        assert(bytes[boff(cs, k + 1)] == t.spec_bytes()[0]);
+    }
+}
+pub proof fn lemma_lits_ops()
+    ensures ">"@ == seq!['>'], "<"@ == seq!['<'], "="@ == seq!['=']
+{
+    reveal_strlit(">"); reveal_strlit("<"); reveal_strlit("=");
+    assert(">"@ =~= seq!['>']); assert("<"@ =~= seq!['<']); assert("="@ =~= seq!['=']);
+}
+
+impl Dewey {
+
+//@ extract src/dewey.rs : impl Dewey fn new
+//@ rewrite D6.match_indices_gt_lt D6.str_get_range D13.ref_wild_pat D6.substr_to_string
+    pub fn new(pattern: &str) -> (r: Result<Dewey, DeweyError>)
+        ensures
+            r is Ok <==> dewey_valid(pattern@),
+            r is Ok ==> r->Ok_0.base() == dewey_base(pattern@) && r->Ok_0.bounds() == dewey_bounds(pattern@),
+    {
+        let ghost cs = pattern@;
+        let ghost opk = ops_from(cs, 0);
+        let ghost blen = pattern.spec_bytes().len() as int;
+        proof {
+            axiom_str_len_fits(pattern); lemma_ops_from(cs, 0); lemma_boff_full(cs);
+            assert(pattern.spec_bytes() == encode_utf8(cs));
+            lemma_lits_ops();
+        }
+        let mut deweyops: Vec<(usize, usize, DeweyOp)> = vec![];
+        for (index, matched) in it: pattern.match_indices(&['>', '<'])
+            invariant
+                cs == pattern@, opk == ops_from(cs, 0), blen == pattern.spec_bytes().len(), blen <= isize::MAX,
+                pattern.spec_bytes() == encode_utf8(cs),
+                it.snapshot@.remaining().len() == opk.len(),
+                forall|j: int| 0 <= j < opk.len() ==> (#[trigger] it.snapshot@.remaining()[j]).0 == boff(cs, opk[j])
+                    && it.snapshot@.remaining()[j].1@ == seq![cs[opk[j]]],
+                forall|j: int| 0 <= j < opk.len() ==> 0 <= #[trigger] opk[j] < cs.len() && is_op_char(cs[opk[j]]),
+                deweyops@.len() == it.index@,
+                forall|i: int| 0 <= i < deweyops@.len() ==> op_entry(cs, opk[i], #[trigger] deweyops@[i]),
+        {
+            let ghost j = it.index@ as int;
+            let ghost k = opk[j];
+            proof {
+                assert(it.snapshot@.remaining()[j].0 == index);
+                lemma_byte_at(cs, k);
+                lemma_boundary(cs, k + 1);
+                if k + 1 < cs.len() { lemma_byte_at(cs, k + 1); lemma_boundary(cs, k + 2); } else { lemma_boff_full(cs); }
+                lemma_lits_ops();
+            }
+            proof {
+                let eq = k + 1 < cs.len() && cs[k + 1] == '=';
+                assert forall|t: &str| index + 2 <= blen && #[trigger] t.spec_bytes() == pattern.spec_bytes().subrange(index + 1, index + 2)
+                    implies ((t@ == seq!['=']) == eq) by { lemma_get_eq(pattern, k, t); }
+                assert forall|t: &str| (#[trigger] t@ == seq!['=']) == (t == "=") by { axiom_str_ext(t, "="); }
+                axiom_str_ext(matched, ">"); axiom_str_ext(matched, "<");
+            }
+            match (matched, pattern.get(index + 1..index + 2)) {
+                (">", Some("=")) => {
+                    deweyops.push((index, index + 2, DeweyOp::GE))
+                }
+                ("<", Some("=")) => {
+                    deweyops.push((index, index + 2, DeweyOp::LE))
+                }
+                (">", _) => deweyops.push((index, index + 1, DeweyOp::GT)),
+                ("<", _) => deweyops.push((index, index + 1, DeweyOp::LT)),
+                (&_, _) => todo!(),
+            }
+            assert(op_entry(cs, k, deweyops@[j]));
+        }
+        let mut matches: Vec<DeweyMatch> = vec![];
+        let ghost n = opk.len() as int;
+        proof {
+            assert(deweyops@.len() == n);
+            assert(dewey_ops(cs).len() == n);
+            lemma_boundary(cs, cs.len() as int);
+            lemma_boundary(cs, 0); lemma_boff_zero(cs);
+            if n >= 1 {
+                let o0 = op_at(cs, opk[0]);
+                assert(op_entry(cs, opk[0], deweyops@[0]));
+                lemma_boundary(cs, o0.pos); lemma_boundary(cs, o0.end);
+                lemma_boff_mono(cs, 0, o0.pos); lemma_boff_mono(cs, o0.end, cs.len() as int);
+                assert(dewey_ops(cs)[0] == o0);
+            }
+            if n >= 2 {
+                let o0 = op_at(cs, opk[0]);
+                let o1 = op_at(cs, opk[1]);
+                assert(op_entry(cs, opk[1], deweyops@[1]));
+                assert(opk[0] < opk[1]);
+                assert(is_op_char(cs[opk[1]]));
+                assert(o0.end <= o1.pos);
+                lemma_boundary(cs, o1.pos); lemma_boundary(cs, o1.end);
+                lemma_boff_mono(cs, o0.end, o1.pos); lemma_boff_mono(cs, o1.end, cs.len() as int);
+                assert(dewey_ops(cs)[1] == o1);
+            }
+        }
+        match deweyops.len() {
+            0 => {
+                return Err(DeweyError {
+                    pos: 0,
+                    msg: "No dewey operators found",
+                })
+            }
+            1 => {
+                let p = &pattern[deweyops[0].1..pattern.len()];
+                proof {
+                    axiom_slice_range(pattern, p, deweyops[0].1 as int, blen);
+                    lemma_slice_view_range(pattern, p, op_at(cs, opk[0]).end, cs.len() as int);
+                    assert(p@ == dewey_bound_text(cs, 0));
+                }
+                matches.push(DeweyMatch::new(&deweyops[0].2, p)?);
+            }
+            2 => {
+                match (&deweyops[0].2, &deweyops[1].2) {
+                    (DeweyOp::GT | DeweyOp::GE, DeweyOp::LT | DeweyOp::LE) => {}
+                    _ => {
+                        return Err(DeweyError {
+                            pos: deweyops[0].0,
+                            msg: "Unsupported operator order",
+                        });
+                    }
+                }
+                let p = &pattern[deweyops[0].1..deweyops[1].0];
+                proof {
+                    axiom_slice_range(pattern, p, deweyops[0].1 as int, deweyops[1].0 as int);
+                    lemma_slice_view_range(pattern, p, op_at(cs, opk[0]).end, op_at(cs, opk[1]).pos);
+                    assert(p@ == dewey_bound_text(cs, 0));
+                }
+                matches.push(DeweyMatch::new(&deweyops[0].2, p)?);
+                let p = &pattern[deweyops[1].1..pattern.len()];
+                proof {
+                    axiom_slice_range(pattern, p, deweyops[1].1 as int, blen);
+                    lemma_slice_view_range(pattern, p, op_at(cs, opk[1]).end, cs.len() as int);
+                    assert(p@ == dewey_bound_text(cs, 1));
+                }
+                matches.push(DeweyMatch::new(&deweyops[1].2, p)?);
+            }
+            3.. => {
+                return Err(DeweyError {
+                    pos: deweyops[2].0,
+                    msg: "Too many dewey operators found",
+                })
+            }
+        }
+        let pkgname = pattern[0..deweyops[0].0].to_string();
+        proof {
+            lemma_substr_view(pattern, pkgname@, 0, opk[0]);
+            assert(pkgname@ =~= dewey_base(cs));
+            assert(Seq::new(matches@.len(), |i: int| matches@[i].bound()) =~= dewey_bounds(cs));
+        }
+        Ok(Dewey { pkgname, matches })
+    }
+//@ end
+
+//@ extract src/dewey.rs : impl Dewey fn matches
+//@ rewrite D6.rsplitn2_dash D6.ne_self_field_string
+    pub fn matches(&self, pkg: &str) -> (r: bool)
+        ensures r == dmatch(self.base(), self.bounds(), pkg@)
+    {
+        proof { lemma_last_index_of(pkg@, '-'); }
+        let v: Vec<&str> = pkg.rsplitn(2, '-').collect();
+        if v.len() != 2 {
+            return false;
+        }
+        if v[1] != self.pkgname {
+            return false;
+        }
+        let pkgver = DeweyVersion::new(v[0]);
+        for m in it: &self.matches
+            invariant
+                it.snapshot@.remaining().len() == self.matches@.len(),
+                forall|i: int| 0 <= i < self.matches@.len() ==> *(#[trigger] it.snapshot@.remaining()[i]) == self.matches@[i],
+                pkgver.toks() == vtok(pkg@.skip(last_index_of(pkg@, '-') + 1)),
+                forall|i: int| 0 <= i < it.index@ ==> op_holds(#[trigger] self.bounds()[i].op, tcmp(pkgver.toks(), self.bounds()[i].t)),
+        {
+            if !dewey_cmp(&pkgver, &m.op, &m.version) {
+                proof {
+                    let i = it.index@ as int;
+                    assert(self.bounds()[i] == m.bound());
+                    assert(!op_holds(self.bounds()[i].op, tcmp(vtok(pkg@.skip(last_index_of(pkg@, '-') + 1)), self.bounds()[i].t)));
+                }
+                return false;
+            }
+            proof { assert(self.bounds()[it.index@ as int] == m.bound()); }
+        }
+        true
+    }
+//@ end
+}
+
+/// C03: a two-bound pattern matches exactly when both of its single-bound halves match
+pub proof fn law_two_bounds(base: Seq<char>, b0: Bound, b1: Bound, name: Seq<char>)
+    ensures dmatch(base, seq![b0, b1], name) == (dmatch(base, seq![b0], name) && dmatch(base, seq![b1], name))
+{
+    let j = last_index_of(name, '-');
+    let v = vtok(name.skip(j + 1));
+    let two = seq![b0, b1];
+    if dmatch(base, two, name) {
+        assert(op_holds(two[0].op, tcmp(v, two[0].t)));
+        assert(op_holds(two[1].op, tcmp(v, two[1].t)));
+    }
+    if dmatch(base, seq![b0], name) && dmatch(base, seq![b1], name) {
+        assert(op_holds(seq![b0][0].op, tcmp(v, seq![b0][0].t)));
+        assert(op_holds(seq![b1][0].op, tcmp(v, seq![b1][0].t)));
+    }
+}
 
 } // verus!
 fn main() {}
